@@ -87,6 +87,7 @@ class C01(ProgProp):
         if x.get("consumed") != x.get("payload_len") and d != "3.2pypy":
             res.fail("C01|corpus|%s|consumed" % d, "%s: payload %s bytes, consumed %s" % (rel, x.get("payload_len"), x.get("consumed")))
         vt = tuple(x["header"]["version"][:2])
+        self.whole_file_route(data, x, d, rel, res)
         str_kinds = ("y", "t")
 
         def check(t, where):
@@ -128,6 +129,23 @@ class C01(ProgProp):
         res.nontrivial = cn.count_codes(x["tree"]) >= 2
         res.key = [rel]
         return res
+
+    def whole_file_route(self, data, x, d, rel, res):
+        """load_module() on the whole file (header parsing decides where the code object starts) must give the tree
+        that unmarshalling the payload alone gives"""
+        if d == "3.2pypy" or data[0:1] == b"0" or x["header"].get("magic_int") == int(x["header"].get("magic_int") or 0) == 48:
+            return
+        x2, err2 = pd.xdis_dump(data, 0, route="load_module")
+        if err2:
+            res.fail("C01|corpus|%s|load_module-raised|%s" % (d, err2[0]), "%s: load_module raised %s: %s" % (rel, err2[0], err2[1]))
+        elif x2["tree"][0] != "C":
+            res.fail("C01|corpus|%s|load_module-no-code-object" % d, "%s: load_module returned %s where unmarshalling the payload gives a code object" % (
+                rel, x2["tree"][:1]))
+        else:
+            dd = cn.diff(x["tree"], x2["tree"])
+            if dd:
+                res.fail("C01|corpus|%s|load_module-vs-payload|%s" % (d, cn.field_of(dd[0]) or "const"),
+                         "%s: load_module's tree differs from the payload's at %s: %s vs %s" % (rel, dd[0], dd[2], dd[1]))
 
     def judge(self, case, ctx):
         if case.get("k") == "corpus-old":
@@ -175,6 +193,14 @@ class C01(ProgProp):
         return res
 
     def reference(self, case, ctx):
+        if case.get("k") == "prog" and not case.get("shift") and isinstance(case.get("down"), int) and case["down"] % 2:
+            memo = ctx.cache.setdefault("inline", {})
+            key = (case["v"], case["src"])
+            if key not in memo:
+                if len(memo) > 50:
+                    memo.clear()
+                memo[key] = ctx.pool.ref(case["v"]).call("compile", src=case["src"], dis=True, inline=True)
+            return memo[key]
         if case.get("k") == "prog" and case.get("shift"):
             # the same program tens of thousands of lines further down the file (first-line fields beyond 16 bits)
             memo = ctx.cache.setdefault("shifted", {})
@@ -269,6 +295,8 @@ class C01(ProgProp):
                      "%s: code tree differs at %s: CPython %s %s, xdis %s" % (rel, diff[0], cousin, diff[1], diff[2]))
         if x.get("consumed") != x.get("payload_len"):
             res.fail("C01|corpus|%s|consumed" % d, "%s: payload %s bytes, consumed %s" % (rel, x.get("payload_len"), x.get("consumed")))
+        if not err:
+            self.whole_file_route(data, x, d, rel, res)
         kinds = cn.const_kinds(ref["tree"])
         res.nontrivial = cn.count_codes(ref["tree"]) >= 2 and len(kinds) >= 3
         res.key = [rel]
